@@ -269,6 +269,12 @@ func runC10(c *vx.Ctx) {
 	if c.Thorough() {
 		maxLen, rounds = 3, 4
 	}
+	if !c.Wants("branch-pairs") {
+		if c.Wants("lockups") {
+			c10Lockups(c)
+		}
+		return
+	}
 	p := c.Part("branch-pairs")
 	p.Bound("branch_length", maxLen)
 	p.Bound("ops", c10Ops)
@@ -334,11 +340,23 @@ func runC10(c *vx.Ctx) {
 			}
 		}
 	}
+	if c.Wants("lockups") {
+		c10Lockups(c)
+	}
 }
 
 func replayC10(c *vx.Ctx, v vx.Violation) string {
 	core.VScaleParams(core.VR1)
 	raw, _ := jsonMarshal(v.Replay)
+	if v.Part == "lockups" {
+		core.VScaleLockBytes()
+		var cs map[string]int
+		if err := jsonUnmarshal(raw, &cs); err != nil {
+			return "bad replay: " + err.Error()
+		}
+		_, d, _ := c10LRun(cs["block_index"])
+		return d
+	}
 	var cs c10Case
 	if err := jsonUnmarshal(raw, &cs); err != nil {
 		return "bad replay: " + err.Error()
